@@ -234,6 +234,15 @@ func MakeVariantMSA(r *fw.Rng, ref string, nq int, p VarProfile) VarMSA {
 		for si, s := range sites {
 			if r.Chance(0.45) {
 				f := []byte(Genome(r, s.w))
+				if r.Chance(0.3) {
+					// inserted bases that were not called (a masked or low-coverage insertion): they
+					// are bases of the query all the same
+					for k := range f {
+						if r.Chance(0.4) {
+							f[k] = "NNN?RYKMn"[r.Intn(9)]
+						}
+					}
+				}
 				// partial insertions: some columns stay gaps
 				if r.Chance(0.4) {
 					for k := range f {
